@@ -50,9 +50,12 @@ import (
 const (
 	envChild    = "VERIF_C08_CHILD"
 	envCaseFile = "VERIF_C08_CASEFILE"
-	// address-space limit of a test process: far above what the unchanged
-	// tree needs (< 1 GiB), far below the machine.
-	addressSpaceLimit = 12 << 30
+	// address-space limit of a test process. The harness keeps the results
+	// of honoured 10-150 MB claims alive (see keepAlive) so that they are
+	// served from fresh, never touched address space; a few dozen of those
+	// need some GiB of *virtual* memory. A dropped limit asks for >= 34 GB
+	// in one piece (2^32-1 elements of >= 8 bytes), usually > 130 GB.
+	addressSpaceLimit = 32 << 30
 )
 
 func isFuzzInvocation() bool {
@@ -78,9 +81,7 @@ func applyGuard() {
 	if err := syscall.Setrlimit(syscall.RLIMIT_AS, &lim); err != nil {
 		fmt.Fprintf(os.Stderr, "c08: cannot set RLIMIT_AS: %v (continuing with TotalAlloc metering only)\n", err)
 	}
-	// soft limit: collect promptly so that honest 100 MB-scale decodes do
-	// not pile up garbage
-	debug.SetMemoryLimit(1 << 30)
+	_ = debug.SetGCPercent
 }
 
 // TestMain either supervises a guarded child (normal test runs) or is the
